@@ -53,12 +53,27 @@ def _job(args):
                         except repo.E2PyclException:
                             pass
                         (ps.enable_safety_check() if gate else ps.disable_safety_check())
+                        first = None
                         try:
                             ps.get_translation()
-                        except repo.E2PyclSafetyException:
-                            raise
+                        except repo.E2PyclSafetyException as e1:
+                            first = e1
                         except repo.E2PyclException:
                             pass                          # whether the accepted workbook translates is not this property
+                        # the same request once more, nothing changed: a refused workbook is refused again (with the same cells)
+                        try:
+                            ps.get_translation()
+                            if first is not None:
+                                ev['err'] = 'the first get_translation raised the safety exception, the same request repeated did not'
+                        except repo.E2PyclSafetyException as e2:
+                            if first is None:
+                                ev['err'] = 'the same request repeated raised the safety exception, the first one did not'
+                            elif dict(getattr(e2, 'suspicious_cells', {}) or {}) != dict(getattr(first, 'suspicious_cells', {}) or {}):
+                                ev['err'] = 'the same request repeated lists other cells'
+                        except repo.E2PyclException:
+                            pass
+                        if first is not None:
+                            raise first
                     else:
                         excel = repo.Excel.parse(x)
                         if gate:
